@@ -15,7 +15,8 @@ EXTS = ["check-file", "posix-rename@openssh.com", "statvfs@openssh.com", "fstatv
         "hardlink@openssh.com", "fsync@openssh.com", "lsetstat@openssh.com", "limits@openssh.com",
         "expand-path@openssh.com", "copy-data", "home-directory", "users-groups-by-id@openssh.com", "", "x"]
 PATHS = ["a", "b", "d", "d/x", "nope", "l", "/a", "./b", "d/../a", "", "d/nope/x", "new1", "new2", "d/new3"]
-SERVER_CONSTS = {"MaxReqs": 0, "MaxHandles": 0, "FixFsetstat": True, "FixCheckFile": True}
+SERVER_CONSTS = {"MaxReqs": 0, "MaxHandles": 0, "FixFsetstat": True, "FixCheckFile": True, "HandleFaults": False,
+                 "ReplyBeforeClose": False}
 
 
 def populate(root, rnd):
@@ -145,12 +146,16 @@ def bind_tables(gen, sess, q):
 def run_streams(c, streams, deadline):
     """streams: list of (label, generator function(gen) -> requests). Returns batch rows + meta"""
     batch, meta = [], []
-    for si, (label, seed, build) in enumerate(streams):
+    drv.quiet_thread_errors()
+    for si, stream in enumerate(streams):
+        label, seed, build = stream[:3]
         rnd = random.Random(seed)
         root = str(c.work / ("srv%d" % si))
         os.makedirs(root)
         populate(root, rnd)
         sess = drv.Session(root)
+        if len(stream) > 3:
+            sess.knobs.raise_ops = stream[3]         # handle methods that raise on the named files
         sess.raw_init()
         gen = StreamGen(rnd, root)
         reqs = build(gen)
@@ -169,7 +174,7 @@ def run_streams(c, streams, deadline):
         rows = []
         for q in sent:
             rows.append({"kind": q["kind"], "h": q["h"], "stuck": q["stuck"], "foreign": q["foreign"],
-                         "resp": [{"type": x["type"], "wf": x["wf"], "newh": x["newh"]} for x in q["resp"]],
+                         "resp": [{"type": x["type"], "wf": x["wf"], "newh": x["newh"], "code": x["code"]} for x in q["resp"]],
                          "size": q.get("size", 0), "off": min(q.get("off", 0), 2 ** 30) if q["kind"] == "ext_check_file" else 0,
                          "len": q.get("len", 0) if q["kind"] == "ext_check_file" else 0,
                          "blk": q.get("blk", 0) if q["kind"] == "ext_check_file" else 0})
@@ -188,11 +193,12 @@ def describe_req(q):
 
 def server_half(c):
     n = 3
-    base = {"MaxReqs": n, "MaxHandles": 2, "FixFsetstat": True, "FixCheckFile": True}
+    base = {"MaxReqs": n, "MaxHandles": 2, "FixFsetstat": True, "FixCheckFile": True, "HandleFaults": True,
+            "ReplyBeforeClose": False}
     inv = ["ExactlyOne", "TypeAllowed", "NeverStops"]
     c.mc_holds("SftpServerProto", cfg_text(constants=base, invariants=inv), name="server loop, repaired")
     # one handle token is enough to reach every handle class (file / dir / stale / junk) in three requests
-    r = c.mc_holds("SftpServerProto", cfg_text(constants=dict(base, MaxHandles=1), invariants=inv + ["Emit"],
+    r = c.mc_holds("SftpServerProto", cfg_text(constants=dict(base, MaxHandles=1, HandleFaults=False), invariants=inv + ["Emit"],
                                                action_constraint="GenShape"),
                    name="server loop, case generation", workers=1)
     cases = {tuple(x[1:4]) + (tuple(sorted(x[4])),) for x in r.printed("CASE")}
@@ -206,6 +212,8 @@ def server_half(c):
          name="faithful FSETSTAT reply on an unknown handle")
     c.mc("SftpServerProto", cfg_text(constants=dict(small, FixCheckFile=False), invariants=inv),
          expect="NeverStops|ExactlyOne", name="faithful check-file loop")
+    c.mc("SftpServerProto", cfg_text(constants=dict(small, ReplyBeforeClose=True), invariants=inv), expect="ExactlyOne",
+         name="mutation: CLOSE acknowledged before a close() that raises")
     deadline = 8.0 if c.quick else 20.0
     # RP: every (kind, handle class, hard) case of the model, rendered a few ways each, in directed streams
     streams = []
@@ -215,8 +223,11 @@ def server_half(c):
             def build(gen, kind=kind, hclass=hclass, hard=hard, vs=vs):
                 return directed(gen, kind, hclass, hard, vs)
             streams.append(("model:%s/%s/%s/%s" % (kind, hclass, hard, "".join(map(str, vs))), c.seed * 1000 + ci, build))
+    # fixed streams on files whose handle methods raise (deferred write error at close(), failing read / write / stat / chattr)
+    for j, ops in enumerate(({"close"}, {"read", "write"}, {"stat", "chattr", "close"})):
+        streams.append(("raising handle methods %s" % "/".join(sorted(ops)), 4000 + j, raising, {"b": set(ops), "a": set(ops) - {"close"}}))
     # TV: seeded random streams + one sweep over all 256 packet types
-    nrand = 40 if c.quick else 400
+    nrand = 34 if c.quick else 400
     for i in range(nrand):
         streams.append(("random", c.seed * 100003 + i, lambda gen: gen.make(40)))
     streams.append(("sweep", c.seed, sweep))
@@ -291,6 +302,29 @@ def directed(gen, kind, hclass, hard, variants=(0, 1, 2)):
         out.append(q)
         if kind in ("close",) and hclass in ("file", "dir"):
             break            # the handle is gone after the first close
+    return out
+
+
+def raising(gen):
+    """every handle-taking request on files whose handle methods raise, CLOSE included (twice), then the same handle
+    again and an unrelated request"""
+    gen.kindof = {}
+
+    def h(n):
+        return lambda issued: (n, issued[n - 1]) if len(issued) >= n else (0, b"hx77")
+    out = [dict(kind="open", path="b", flags=3, attrs={}, id=gen.rid()),
+           dict(kind="open", path="a", flags=3, attrs={}, id=gen.rid())]
+    for tok in (1, 2):
+        out += [dict(kind="write", hsel=h(tok), off=0, data=b"xyz", id=gen.rid()),
+                dict(kind="read", hsel=h(tok), off=0, len=10, id=gen.rid()),
+                dict(kind="fstat", hsel=h(tok), id=gen.rid()),
+                dict(kind="fsetstat", hsel=h(tok), attrs={"perm": 0o600}, id=gen.rid()),
+                dict(kind="ext_check_file", ext="check-file", hsel=h(tok), algs="md5", off=0, len=100, blk=256, id=gen.rid(),
+                     hpath=lambda t: None)]
+    out += [dict(kind="close", hsel=h(1), id=gen.rid()), dict(kind="fstat", hsel=h(1), id=gen.rid()),
+            dict(kind="close", hsel=h(1), id=gen.rid()), dict(kind="read", hsel=h(1), off=0, len=5, id=gen.rid()),
+            dict(kind="stat", path="a", id=gen.rid()), dict(kind="close", hsel=h(2), id=gen.rid()),
+            dict(kind="close", hsel=h(2), id=gen.rid())]
     return out
 
 
